@@ -188,6 +188,7 @@ inductive Err where
   | notfound   -- db.ErrKeyNotFound
   | range      -- ErrAggregatedBloomFilterBlockOutOfRange
   | bounds     -- ErrFetchedFilterBoundsMismatch
+  | pruned     -- pruner.BlockPrunedError
   deriving DecidableEq, Repr
 
 /-! ## The node -/
@@ -205,9 +206,14 @@ structure Node where
   next : Nat
   /-- memory: `AggregatedBloomFilterCache`, most recently used first -/
   cache : WinMap
+  /-- database: the oldest retained block (`pruner.OldestRetainedBlock`; 0 on a node that never
+  pruned). Below it the block transactions (events) and commitments are gone, headers are gone
+  below `floor - BlockHashLag`, persisted windows are gone below the window of `floor`. The model
+  keeps the pruned blocks in `chain` and guards every read. -/
+  floor : Nat
   deriving DecidableEq, Repr
 
-def Node.init : Node := ⟨[], [], none, Agg.fresh 0, 0, []⟩
+def Node.init : Node := ⟨[], [], none, Agg.fresh 0, 0, [], 0⟩
 
 /-- `RunningEventFilter.insert`: returns the new `(inner, next, persisted windows)`. -/
 def insertRun (W : Nat) (r : Agg) (p : WinMap) (bloom : List Item) (b : Nat) : Except Err (Agg × Nat × WinMap) :=
@@ -217,11 +223,83 @@ def insertRun (W : Nat) (r : Agg) (p : WinMap) (bloom : List Item) (b : Nat) : E
     if b == r'.from_ + (W - 1) then .ok (Agg.fresh (b + 1), b + 1, p.put r'.from_ r')
     else .ok (r', b + 1, p)
 
+/-- `core.BlockHashLag`: headers survive this far below the retention floor. -/
+def blockHashLag : Nat := 10
+
+/-- `fillRunningEventFilter`: reads the header bloom of every block (headers below
+`floor - BlockHashLag` are pruned). -/
+def fill (W : Nat) (chain : List Block) (floor : Nat) : List Nat → Agg → Nat → WinMap → Except Err (Agg × Nat × WinMap)
+  | [], r, nx, p => .ok (r, nx, p)
+  | b :: bs, r, _, p =>
+    if b + blockHashLag < floor then .error .notfound else
+    match chain[b]? with
+    | none => .error .notfound
+    | some blk =>
+      match insertRun W r p blk.bloom b with
+      | .error e => .error e
+      | .ok (r', nx', p') => fill W chain floor bs r' nx' p'
+
+/-- The backward walk of `rebuildRunningEventFilter`: the newest persisted window at or below
+window index `k`, not looking below window index `kmin` (the window of the retention floor). -/
+def findAnchor (W : Nat) (p : WinMap) (kmin : Nat) : Nat → Option Nat
+  | 0 => if (p.lookup 0).isSome then some 0 else none
+  | k + 1 =>
+    if (p.lookup ((k + 1) * W)).isSome then some ((k + 1) * W)
+    else if k + 1 ≤ kmin then none
+    else findAnchor W p kmin k
+
+/-- `continueFrom`: the block after the anchor window, or the floor without an anchor. -/
+def continueFrom (W floor : Nat) : Option Nat → Nat
+  | some w => w + W
+  | none => floor
+
+/-- `windowStart`: the block after the anchor window, or the window of the floor. -/
+def windowStart (W floor : Nat) : Option Nat → Nat
+  | some w => w + W
+  | none => floor - floor % W
+
+/-- `pruner.rebuildRunningEventFilter` (= `core.rebuildRunningEventFilter` when `floor = 0`). -/
+def rebuild (cfg : Cfg) (n : Node) (latest : Nat) : Except Err (Agg × Nat × WinMap) :=
+  let anchor := findAnchor cfg.W n.persisted (n.floor / cfg.W) (latest / cfg.W)
+  let cont := continueFrom cfg.W n.floor anchor
+  fill cfg.W n.chain n.floor (List.range' cont (latest + 1 - cont)) (Agg.fresh (windowStart cfg.W n.floor anchor)) cont n.persisted
+
+/-- `pruner.InitializeRunningEventFilter` (what `cmd/juno` wires); with `floor = 0` it is
+`core.InitializeRunningEventFilter`. -/
+def initRunning (cfg : Cfg) (n : Node) : Except Err (Agg × Nat × WinMap) :=
+  match n.chain.length with
+  | 0 => .ok (Agg.fresh 0, 0, n.persisted)
+  | latest + 1 =>
+    match n.snapshot with
+    | some (inner, nx) =>
+      if nx == latest + 1 then .ok (inner, nx, n.persisted)
+      else if nx ≤ latest && latest ≤ inner.from_ + (cfg.W - 1) then
+        fill cfg.W n.chain n.floor (List.range' (max nx n.floor) (latest + 1 - max nx n.floor)) inner (max nx n.floor) n.persisted
+      else rebuild cfg n latest
+    | none => rebuild cfg n latest
+
+/-- A new `Blockchain` on the same database: the cache is empty and the running filter is
+initialised from the database (lazily in the code, on the first store / revert / query / snapshot
+write; none of these changes the database before the initialiser has read it). -/
+def restart (cfg : Cfg) (n : Node) : Node × Option Err :=
+  match initRunning cfg n with
+  | .error e => ({ n with cache := [] }, some e)
+  | .ok (r, nx, p) => ({ n with running := r, next := nx, persisted := p, cache := [] }, none)
+
+/-- `RunningEventFilter.Reset` after a failed `Store` / `RevertHead` (statebackend
+`resetFilterOnError`): the in-memory filter is dropped and rebuilt from the database at the next
+access. The cache stays. -/
+def reinit (cfg : Cfg) (n : Node) : Node :=
+  match initRunning cfg n with
+  | .error _ => n
+  | .ok (r, nx, p) => { n with running := r, next := nx, persisted := p }
+
 /-- `Store` (the part that concerns the index): everything is in one batch, so an error leaves
-the node unchanged. The block's number is the chain length (`verifyBlockSuccession`). -/
+the database unchanged (and resets the in-memory filter). The block's number is the chain length
+(`verifyBlockSuccession`). -/
 def store (cfg : Cfg) (n : Node) (blk : Block) : Node × Option Err :=
   match insertRun cfg.W n.running n.persisted blk.bloom n.chain.length with
-  | .error e => (n, some e)
+  | .error e => (reinit cfg n, some e)
   | .ok (r, nx, p) => ({ n with chain := n.chain ++ [blk], running := r, next := nx, persisted := p }, none)
 
 /-- `x - 1` on `uint64`. -/
@@ -233,75 +311,37 @@ def revertFinish (cfg : Cfg) (m : Node) : Node × Option Err :=
             cache := if cfg.fixCache then [] else m.cache }, none)
 
 /-- `RevertHead` → `RunningEventFilter.onReorg`. On an error the batch is dropped (database
-unchanged) but the in-memory assignments made before the error stay, as in the code. -/
+unchanged) and the in-memory filter is reset. The head's state update must still be retained. -/
 def revert (cfg : Cfg) (n : Node) : Node × Option Err :=
-  if n.chain.isEmpty then (n, some .empty) else
+  if n.chain.isEmpty then (reinit cfg n, some .empty) else
+  if n.chain.length - 1 < n.floor then (reinit cfg n, some .notfound) else
   let cur := pred64 n.next
   if cur == pred64 n.running.from_ then
     let aligned := cur - cur % cfg.W
     match n.persisted.lookup aligned with
-    | none => (n, some .notfound)
+    | none => (reinit cfg n, some .notfound)
     | some prev =>
       match prev.clear cfg.W cur with
-      | none => ({ n with running := prev, next := cur }, some .range)
+      | none => (reinit cfg n, some .range)
       | some r =>
         let p1 := n.persisted.del n.running.from_
         let p2 := if cfg.fixPersist then p1.del aligned else p1
         revertFinish cfg { n with running := r, next := cur, persisted := p2 }
   else
     match n.running.clear cfg.W cur with
-    | none => ({ n with next := cur }, some .range)
+    | none => (reinit cfg n, some .range)
     | some r => revertFinish cfg { n with running := r, next := cur }
 
 /-- `WriteRunningEventFilter` (graceful shutdown). -/
 def snap (n : Node) : Node := { n with snapshot := some (n.running, n.next) }
 
-/-- `fillRunningEventFilter`. -/
-def fill (W : Nat) (chain : List Block) : List Nat → Agg → Nat → WinMap → Except Err (Agg × Nat × WinMap)
-  | [], r, nx, p => .ok (r, nx, p)
-  | b :: bs, r, _, p =>
-    match chain[b]? with
-    | none => .error .notfound
-    | some blk =>
-      match insertRun W r p blk.bloom b with
-      | .error e => .error e
-      | .ok (r', nx', p') => fill W chain bs r' nx' p'
-
-/-- The backward walk of `rebuildRunningEventFilter`: the newest persisted window at or below
-window index `k`. -/
-def findAnchor (W : Nat) (p : WinMap) : Nat → Option Nat
-  | 0 => if (p.lookup 0).isSome then some 0 else none
-  | k + 1 => if (p.lookup ((k + 1) * W)).isSome then some ((k + 1) * W) else findAnchor W p k
-
-/-- `continueFrom`: the block after the anchor window, or 0 without an anchor. -/
-def continueFrom (W : Nat) : Option Nat → Nat
-  | some w => w + W
-  | none => 0
-
-def rebuild (cfg : Cfg) (n : Node) (latest : Nat) : Except Err (Agg × Nat × WinMap) :=
-  let cont := continueFrom cfg.W (findAnchor cfg.W n.persisted (latest / cfg.W))
-  fill cfg.W n.chain (List.range' cont (latest + 1 - cont)) (Agg.fresh cont) cont n.persisted
-
-/-- `InitializeRunningEventFilter`. -/
-def initRunning (cfg : Cfg) (n : Node) : Except Err (Agg × Nat × WinMap) :=
-  match n.chain.length with
-  | 0 => .ok (Agg.fresh 0, 0, n.persisted)
-  | latest + 1 =>
-    match n.snapshot with
-    | some (inner, nx) =>
-      if nx == latest + 1 then .ok (inner, nx, n.persisted)
-      else if nx ≤ latest && latest ≤ inner.from_ + (cfg.W - 1) then
-        fill cfg.W n.chain (List.range' nx (latest + 1 - nx)) inner nx n.persisted
-      else rebuild cfg n latest
-    | none => rebuild cfg n latest
-
-/-- A new `Blockchain` on the same database: the cache is empty and the running filter is
-initialised from the database (lazily in the code, on the first store / revert / query / snapshot
-write; none of these changes the database before the initialiser has read it). -/
-def restart (cfg : Cfg) (n : Node) : Node × Option Err :=
-  match initRunning cfg n with
-  | .error e => ({ n with cache := [] }, some e)
-  | .ok (r, nx, p) => ({ n with running := r, next := nx, persisted := p, cache := [] }, none)
+/-- `pruner.PruneUpto(endExclusive = k)` as far as events are concerned: the retention floor
+moves up to `k` and the persisted windows that lie entirely below the window of `k` are deleted
+(`pruneAggregatedBloomFiltersUpto`). A no-op when nothing below `k` is left, and (the pruner never
+asks for it) when `k` is above the head. -/
+def prune (cfg : Cfg) (n : Node) (k : Nat) : Node :=
+  if n.chain.isEmpty || k ≤ n.floor || n.chain.length ≤ k then n
+  else { n with floor := k, persisted := n.persisted.filter (fun x => !(x.1 < k - k % cfg.W)) }
 
 /-! ## Queries -/
 
@@ -348,19 +388,20 @@ inductive Step where
 `MatchedBlockIterator.Next` counts the block (when a limit is set) and gives up with
 `ErrMaxScannedBlockLimitExceed` on the first block over the limit: the page ends with the token
 `(that block, 0)`. Otherwise the block's events are read and scanned. -/
-def scanCands (f : Filter) (chain : List Block) (chunk limit : Nat) :
+def scanCands (f : Filter) (chain : List Block) (floor chunk limit : Nat) :
     List Nat → List Emitted → Nat → Nat → Step
   | [], acc, skip, sc => .cont acc skip sc
   | b :: bs, acc, skip, sc =>
     let sc' := if limit > 0 then sc + 1 else sc
     if limit > 0 && sc' > limit then .stop acc ⟨b, 0⟩
+    else if b < floor then .fail .notfound   -- the block's transactions are pruned
     else
       match chain[b]? with
       | none => .fail .notfound
       | some blk =>
         match scanGo f skip chunk (blockRaw b blk) 0 acc with
         | (acc', p, true) => .stop acc' ⟨b, p⟩
-        | (acc', _, false) => scanCands f chain chunk limit bs acc' 0 sc'
+        | (acc', _, false) => scanCands f chain floor chunk limit bs acc' 0 sc'
 
 def scanWindows (cfg : Cfg) (n : Node) (f : Filter) (chunk limit start to : Nat) :
     List Nat → WinMap → List Emitted → Nat → Nat → PageRes × WinMap
@@ -369,10 +410,26 @@ def scanWindows (cfg : Cfg) (n : Node) (f : Filter) (chunk limit start to : Nat)
     match loadWindow cfg n cache w with
     | .error e => (.err e, cache)
     | .ok (a, cache') =>
-      match scanCands f n.chain chunk limit (windowCands f a (max start w) (min to (w + (cfg.W - 1)))) acc skip sc with
+      match scanCands f n.chain n.floor chunk limit (windowCands f a (max start w) (min to (w + (cfg.W - 1)))) acc skip sc with
       | .cont acc' skip' sc' => scanWindows cfg n f chunk limit start to ws cache' acc' skip' sc'
       | .stop acc' tok => (.ok acc' tok, cache')
       | .fail e => (.err e, cache')
+
+/-- `MatchedBlockIterator` on its own (`NewMatchedBlockIterator` + `Next` until it stops): the
+candidate blocks of `[start, to]` in the order they are yielded, and the block on which the scan
+limit was exceeded, if it was. Used by the harness to tie the window loading (LRU eviction
+included) with a small cache; `scanWindows` is the same loop with the events read in between. -/
+def iterCands (cfg : Cfg) (n : Node) (f : Filter) (limit start to : Nat) :
+    List Nat → WinMap → List Nat → Nat → Except Err (List Nat × Option Nat) × WinMap
+  | [], cache, acc, _ => (.ok (acc, none), cache)
+  | w :: ws, cache, acc, sc =>
+    match loadWindow cfg n cache w with
+    | .error e => (.error e, cache)
+    | .ok (a, cache') =>
+      let cs := windowCands f a (max start w) (min to (w + (cfg.W - 1)))
+      if limit > 0 && sc + cs.length > limit then
+        (.ok (acc ++ cs.take (limit - sc), cs[limit - sc]?), cache')
+      else iterCands cfg n f limit start to ws cache' (acc ++ cs) (sc + cs.length)
 
 /-- First blocks of the windows that `[start, to]` touches. -/
 def windowsOf (W start to : Nat) : List Nat :=
@@ -393,7 +450,8 @@ def events (cfg : Cfg) (n : Node) (f : Filter) (fromB toB : Nat) (tok : Option T
   | latest + 1 =>
     let start := match tok with | some t => t.b | none => fromB
     let skip := match tok with | some t => t.p | none => 0
-    if toB ≤ latest then canonical cfg n f chunk limit start toB skip
+    if start ≤ latest && start < n.floor then (.err .pruned, n.cache)   -- pruner.RequireRetained
+    else if toB ≤ latest then canonical cfg n f chunk limit start toB skip
     else if start ≤ latest then canonical cfg n f chunk limit start latest skip
     else (.ok [] Token.none, n.cache)
 
@@ -445,7 +503,9 @@ def eventsPre (cfg : Cfg) (n : Node) (f : Filter) (fromB toB : Nat) (tok : Optio
     | height + 1 =>
       let start := match tok with | some t => t.b | none => fromB
       let skip := match tok with | some t => t.p | none => 0
-      if toB != sentinel && toB ≤ height then canonical cfg n f chunk limit start toB skip
+      if start ≤ (if toB != sentinel && toB ≤ height then height else base) && start < n.floor then
+        (.err .pruned, n.cache)
+      else if toB != sentinel && toB ≤ height then canonical cfg n f chunk limit start toB skip
       else if toB ≤ base then canonical cfg n f chunk limit start toB skip
       else
         let fromPre := if start == sentinel then base + pre.length else start
@@ -484,6 +544,7 @@ inductive Op where
   | snap
   | restart
   | query (f : Filter) (fromB toB : Nat) (tok : Option Token) (chunk limit : Nat)
+  | prune (k : Nat)
   deriving Repr
 
 def step (cfg : Cfg) (n : Node) : Op → Node
@@ -492,6 +553,7 @@ def step (cfg : Cfg) (n : Node) : Op → Node
   | .snap => snap n
   | .restart => (restart cfg n).1
   | .query f a b t c l => (query cfg n f a b t c l).1
+  | .prune k => prune cfg n k
 
 def run (cfg : Cfg) (n : Node) (ops : List Op) : Node := ops.foldl (step cfg) n
 
